@@ -13,6 +13,11 @@ Tie       : (t) generated table vs the real DataType objects, all 128 characters
             (c) float: the whole pipeline of a TreeLikelihoodModel built from JSON re-run in the Lean Float
                 model (Lean's own indices, branch lengths, assembly, patterns, tip vectors; torch supplies
                 only p_t of Lean's times), 1e-10.
+            (e) LIVE-object histories (harness/c01_live.py): one model object, parameters updated one at a time
+                through `parameter.tensor = …`, other observables read in between (node heights, branch lengths, a
+                coalescent prior on the same tree), re-evaluated; compared with the oracle at the CURRENT values and
+                with a freshly built model (time trees with explicit heights / ratios + root height, strict and
+                per-branch clocks, unrooted trees with explicit branch lengths).
 Search    : (d) the property's own oracle — explicit sum over all labelings, written in the harness with its
             own tree parser and numbering — against the real TreeLikelihoodModel for every labelled rooted
             binary topology with 3..5 taxa (6 in the thorough tier) and random larger trees.  Always run.
@@ -30,6 +35,7 @@ from common import REPO, VERIF, Check, f2h, h2f, use_repo
 sys.path.insert(0, str(VERIF / "harness" / "translators"))
 import tr_datatype  # noqa: E402
 import c01_gen as G  # noqa: E402
+import c01_live as LV  # noqa: E402
 
 TOL_LEAN = 1e-10
 TOL_ORACLE = 1e-9
@@ -215,7 +221,10 @@ def json_case_lean(ck: Check, drv, torch, case, tag, out=None):
             tips_ok = True
     # ---- branch lengths (exact: + and - only)
     node_by_index = {x.index: x for x in t.postorder()}
-    if case["rooting"] == "unrooted":
+    if case["rooting"] == "unrooted" and case.get("branch_lengths") is not None:
+        rep = "ok " + G.fl(case["branch_lengths"])  # given explicitly by node index: nothing to assemble
+        impl_bl = [float(v) for v in tm.branch_lengths().reshape(-1)]
+    elif case["rooting"] == "unrooted":
         edges = [node_by_index[i].length for i in range(2 * n - 2)]
         rep = drv.ask("blu f | " + " ".join(taxa) + " | " + G.tokens(t) + " | " + G.fl(edges))
         impl_bl = [float(v) for v in tm.branch_lengths().reshape(-1)]
@@ -335,6 +344,7 @@ def run(ck: Check):
         ck.notes.append(f"driver unavailable: {e}")
 
     failures = []  # (case, impl, oracle)
+    live_failures = []  # (case, use_prior, ops, records)
     rng = ck.rng
     thorough = ck.thorough()
     try:
@@ -390,12 +400,53 @@ def run(ck: Check):
                 t = G.caterpillar([x.name for x in G.parse_newick(case["newick"]).leaves()])
                 case = G.gen_case(rng, n, topo=t, subst=case["subst"]["kind"], nsites=6)
             run_case(ck, drv, torch, case, failures, "random/10-40", oracle=False)
+        # ---- ambiguity stress: columns in which NO taxon is unambiguous, all-missing columns, columns repeated many
+        #      times, RNA U/u — with ambiguities on / off / default, tip partials and tip states
+        for ua in (True, False, None):
+            for ts in (False, True):
+                for _ in range(12 if thorough else 4):
+                    n = rng.choice([3, 4, 5, 6])
+                    case = G.gen_case(rng, n, subst=rng.choice(["JC69", "HKY", "GTR", "GeneralNonSymmetric"]),
+                                      tip_states=ts, use_amb=ua, use_amb_fixed=True, special=True, nsites=rng.randint(2, 5))
+                    run_case(ck, drv, torch, case, failures, f"ambiguity-stress/amb={ua}/tipstates={ts}")
+        # ---- LIVE-object histories: update parameters of ONE model object through the public interface
+        for h in range(250 if thorough else 45):
+            n = rng.choice([3, 4, 5, 6])
+            case, use_prior, ops = LV.gen_live(rng, n)
+            lean_fresh = (lambda snap: json_case_lean(ck, drv, torch, snap, "live")) if drv and rng.random() < 0.4 else None
+            recs = LV.run_live(case, use_prior, ops, on_fresh=lean_fresh)
+            kind = "reparam" if case.get("ratios") is not None else case["rooting"]
+            ck.case(key=("live", h, json.dumps(ops)[:300]), bucket=f"live/{kind}/" + ("prior" if use_prior else "noprior"),
+                    sample={"kind": kind, "ops": [o["op"] + ":" + o.get("param", o.get("what", "")) for o in ops],
+                            "values": [r["impl"] for r in recs]} if h < 2 else None)
+            ck.bucket("live/evaluations", len(recs))
+            ck.bucket("live/updates", sum(1 for o in ops if o["op"] == "set"))
+            if any(LV.failing(r) for r in recs):
+                live_failures.append((case, use_prior, ops, recs))
     finally:
         if drv:
             drv.close()
 
     # ---- verdict
-    if failures:
+    if live_failures and not failures:
+        live_failures.sort(key=lambda f: (len(f[0]["taxa"]), len(f[2])))
+        case, use_prior, ops, recs = live_failures[0]
+        try:
+            use_prior, ops = LV.shrink(case, use_prior, ops)
+            recs = LV.run_live(case, use_prior, ops)
+        except Exception as e:  # noqa: BLE001
+            ck.notes.append("shrinking failed: " + repr(e)[:200])
+        bad = next((r for r in recs if LV.failing(r)), recs[-1])
+        kind = "reparam" if case.get("ratios") is not None else case["rooting"]
+        ck.violation(
+            "TreeLikelihoodModel:live:" + kind,
+            f"after the history {[o['op'] + ':' + o.get('param', o.get('what', '')) for o in ops]} the live model returns "
+            f"{bad['impl']} but the marginal over all labelings at the current values is {bad['oracle']} and a freshly built "
+            f"model gives {bad['fresh']} ({len(live_failures)} failing histories)",
+            {"live": {"case": case, "use_prior": use_prior, "ops": ops}, "records": [{k: v for k, v in r.items() if k != "case"} for r in recs],
+             "broken_obligations": broken, "replay_cmd": "./check C01 --replay <this file>"},
+        )
+    elif failures:
         failures.sort(key=lambda f: (len(f[0]["taxa"]), len(json.dumps(f[0]))))
         case, impl, want = failures[0]
         ck.violation(
@@ -432,6 +483,8 @@ def run_case(ck, drv, torch, case, failures, bucket, lean=True, oracle=True):
     ck.case(key=key, bucket=bucket + "/" + case["subst"]["kind"], nontrivial=amb and impl is not None and math.isfinite(impl),
             sample={"newick": case["newick"], "config": config_key(case), "loglik": impl})
     ck.bucket("cfg/" + "/".join(str(x) for x in config_key(case)[1:4]))
+    for feat in G.alignment_features(case):
+        ck.bucket(f"alignment/{feat}/amb={case.get('use_ambiguities')}/tipstates={bool(case.get('use_tip_states'))}")
     if oracle and model is not None:
         check_oracle(ck, case, impl, model, failures)
     elif oracle:
@@ -441,6 +494,16 @@ def run_case(ck, drv, torch, case, failures, bucket, lean=True, oracle=True):
 def replay(path: str) -> int:
     torch = setup_torch()
     obj = json.loads(Path(path).read_text())
+    if obj.get("live"):
+        lv = obj["live"]
+        recs = LV.run_live(lv["case"], lv["use_prior"], lv["ops"])
+        bad = False
+        for r in recs:
+            f = LV.failing(r)
+            bad = bad or f
+            print(f"eval at op {r['step']}: live model = {r['impl']!r}; marginal at current values = {r['oracle']!r}; "
+                  f"fresh model = {r['fresh']!r}; {'VIOLATES' if f else 'ok'} {r.get('error', '')}")
+        return 1 if bad else 0
     case = obj.get("case")
     if not case:
         print("replay names broken obligations only:", obj.get("broken_obligations"), obj.get("mismatches"))
